@@ -4,7 +4,7 @@ import math
 from ..common import b2f, f2b
 from ..gen import gen_tree, infosets_of, tree_stats
 from ..ops import CaseBuilder
-from ..solvers import level_tree, PRESETS, blind_guess_tree, tiny_unit
+from ..solvers import level_tree, PRESETS, blind_guess_tree, tiny_unit, with_duplicate_action
 from .. import oracle
 
 SCOPE = {"solve", "named", "info"}
@@ -68,6 +68,12 @@ def generate(rng, tier, n):
         else:
             t, st = gen_tree(rng, max_nodes=rng.choice([20, 50, 100]), max_depth=rng.choice([4, 6, 8]),
                              p_share=rng.choice([0.5, 0.8]), max_actions=rng.choice([2, 3, 4]))
+        if rng.random() < 0.15:
+            t2 = with_duplicate_action(rng, t)     # exact ties between two actions, in every iteration
+            if t2 is not None:
+                t = t2
+                from ..gen import tree_stats
+                st = tree_stats(t)
         multi, _ = infosets_of(t)
         if len(multi[1]) + len(multi[2]) < 2:
             continue
